@@ -174,6 +174,8 @@ def run_script(nsends, script, waits=None, late=None, cancels=None, rng=None, wa
                 d.tick()
             elif r == "nak":
                 d.frames([("NAK", 0, 0, frm)])
+            elif r.startswith("nak+"):        # a NAK whose ackNum is frm + k (a stale / foreign NAK): the repeat keeps its number
+                d.frames([("NAK", 0, 0, (frm + int(r[4:])) % 8)])
             elif r == "silence":
                 d.tick()
             elif r == "error":
@@ -363,6 +365,14 @@ class Check(PropertyCheck):
                 cases.append({"n": 1, "script": [f"stale+{k}", "ack"], "warm": warm})
                 if tier != "quick" or (warm + k) % 3 == 0:
                     cases.append({"n": 2, "script": [f"datastale+{k}", f"stale+{(k + 3) % 8 or 2}", "ack"], "warm": warm})
+        # NAK frames whose number is not the outstanding frame's, every distance, from every frame number, then a covering
+        # ACK for the ORIGINAL number: the frame is repeated under its own number and completes
+        for warm in range(0, 8):
+            for k in (1, 2, 3, 4, 5, 6, 7):
+                if tier == "quick" and (warm + k) % 2:
+                    continue
+                cases.append({"n": 2, "script": [f"nak+{k}", "ack", "ack"], "warm": warm})
+                cases.append({"n": 1, "script": ["silence", f"nak+{k}", "silence", "ack"], "warm": warm})
         # every reset code an ERROR frame can carry, on the first and on a later attempt, with a send queued behind
         for code in (range(256) if tier != "quick" else [0, 1, 2, 3, 6, 9, 0x0B, 0x51, 0x52, 0x53, 0x80, 0xFF]):
             cases.append({"n": 2, "script": [f"error:{code}"]})
